@@ -1,8 +1,8 @@
 (* extraction of the bit-exact float32 model of math.go's Dot / Cross (coq/GridFloat.v, over Flocq's
-   binary32).  Only ExtrOcamlBasic: bool, option, unit, list, prod, sumbool, comparison become OCaml
+   binary32) and of calculateNormal / doHorizontalPlanesOverlap / IntersectQuad (coq/GridFloat2.v, binary64 inside the normal).  Only ExtrOcamlBasic: bool, option, unit, list, prod, sumbool, comparison become OCaml
    natives; positive, N, Z stay extracted inductive datatypes; no Extract Constant. *)
 From Coq Require Import ZArith.
-From hagall Require Import GridFloat.
+From hagall Require Import GridFloat GridFloat2.
 Require Extraction.
 Require ExtrOcamlBasic.
 Extraction Language OCaml.
@@ -11,4 +11,6 @@ Extraction "gridfloat.ml"
   f32_of_bits bits_of_f32 vec32_of_bits bits_of_vec32
   add32 sub32 mul32 dot32 cross32
   is_nan32 is_finite32 same_bits
-  dot_bits cross_bits dot_agrees cross_agrees.
+  dot_bits cross_bits dot_agrees cross_agrees
+  normal32 overlap32 intersect32 normal_bits normal_agrees quad32_of_bits ray32_of_bits overlap_bits intersect_bits intersect_agrees
+  horizontal_input two_nonzero new_quad32 vray.
